@@ -144,7 +144,7 @@ func randCond(r *vlib.Rand, depth int) pktcls.Cond {
 			return pktcls.NewCondAnyOf(cs...)
 		}
 	}
-	switch r.Intn(9) {
+	switch r.Intn(11) {
 	case 0:
 		return pktcls.CondBool(r.Chance(70))
 	case 1:
@@ -196,6 +196,9 @@ func genTable(r *vlib.Rand) rtCase {
 				n = v4Net(b, l, r.Chance(80))
 			} else {
 				n = randV6Prefix(r)
+			}
+			if allowDup && len(ch.Prefixes) > 0 && r.Chance(40) {
+				n = ch.Prefixes[r.Intn(len(ch.Prefixes))]
 			}
 			k := netKey(n)
 			if seen[k] {
@@ -337,7 +340,7 @@ func genPacket(r *vlib.Rand, c rtCase) pktCase {
 		}
 	}
 	spec := gwcond.V4Spec{Src: v4Bases[r.Intn(len(v4Bases))] | uint32(r.Intn(256)), Dst: dst,
-		TOS: uint8(r.Intn(16)), Proto: []uint8{6, 17, 17, 1, 47}[r.Intn(5)]}
+		TOS: uint8(r.Intn(16)), Proto: []uint8{6, 17, 17, 1, 59}[r.Intn(5)]}
 	if r.Chance(12) {
 		spec.MF = r.Bool()
 		if !spec.MF || r.Bool() {
@@ -350,7 +353,10 @@ func genPacket(r *vlib.Rand, c rtCase) pktCase {
 	} else if spec.Proto == 6 {
 		kind = 1
 	}
-	spec.Payload = gwcond.L4(r, kind, uint16(r.Intn(8)), uint16(r.Intn(8)))
+	spec.Payload = gwcond.L4(r, kind, uint16(r.Intn(8)), uint16(r.Intn(8)), r.Chance(12))
+	if spec.Proto == 1 && r.Chance(90) {
+		spec.Payload = append([]byte{8, 0, 0, 0, 0, 1, 0, 1}, r.Bytes(r.Intn(6))...) // ICMP echo: decodes
+	}
 	pc.raw = spec.Raw()
 	var valid bool
 	pc.ip4, valid = gwcond.DecodeV4(pc.raw)
@@ -467,12 +473,17 @@ func runTables(e *vlib.Env, r *vlib.Rand, ncases int) {
 		for round := 0; round < 3; round++ {
 			// session updates
 			nops := r.Range(0, 4)
+			if round == 0 {
+				nops = len(c.ids) + r.Intn(3)
+			}
 			for k := 0; k < nops; k++ {
 				id := r.Range(1, 8)
-				if len(c.ids) > 0 && r.Chance(70) {
+				if round == 0 && k < len(c.ids) && r.Chance(85) {
+					id = c.ids[k]
+				} else if len(c.ids) > 0 && r.Chance(70) {
 					id = c.ids[r.Intn(len(c.ids))]
 				}
-				if r.Chance(70) {
+				if r.Chance(75) {
 					s := &session{id: nextSess}
 					nextSess++
 					sessions[s.id] = s
@@ -687,16 +698,16 @@ var comments = []string{"", "", "hello", "allow # all", "x  y", "a,b;c", "traili
 // actions, at most one negation, non-empty networks, single-line comments, next hop only on
 // advertise rules.
 func genPolicy(r *vlib.Rand, expressible bool) *routing.Policy {
-	p := &routing.Policy{DefaultAction: []routing.Action{routing.Accept, routing.Reject, routing.Reject, routing.UnknownAction}[r.Intn(4)]}
+	p := &routing.Policy{DefaultAction: []routing.Action{routing.Accept, routing.Accept, routing.Reject, routing.Reject, routing.UnknownAction}[r.Intn(5)]}
 	n := r.Intn(7)
 	for i := 0; i < n; i++ {
 		var ru routing.Rule
-		switch k := r.Intn(10); {
+		switch k := r.Intn(12); {
 		case k < 4:
 			ru.Action = routing.Accept
 		case k < 8:
 			ru.Action = routing.Reject
-		case k == 8:
+		case k < 11:
 			ru.Action = routing.Advertise
 		default:
 			ru.Action = routing.RedistributeBGP
@@ -796,6 +807,9 @@ func (q query) op() string {
 
 func genQuery(r *vlib.Rand, p *routing.Policy) query {
 	q := query{from: addr.MustParseIA(qIAPool[r.Intn(len(qIAPool))]), to: addr.MustParseIA(qIAPool[r.Intn(len(qIAPool))]), q: randPrefix(r)}
+	if r.Chance(45) {
+		q.q = netip.MustParsePrefix([]string{"0.0.0.0/0", "::/0", "10.0.0.0/8", "2001:db8::/32"}[r.Intn(4)])
+	}
 	var cand []netip.Addr
 	cand = append(cand, edgeAddrs(q.q)...)
 	for _, ru := range p.Rules {
